@@ -40,7 +40,8 @@ class _StdOnly:
 class Store:
     def __init__(self, body, prog=None):
         self.body = body
-        self.prog = prog or _StdOnly()
+        # (user enums are decoded through the program the body belongs to when the caller did not hand it over)
+        self.prog = prog or core.prog_of(body) or _StdOnly()
         self.flags = set()
         self.colls = set()
         for l, loc in enumerate(body.locals):
